@@ -446,6 +446,8 @@ class CemiLink:
         con = CEMIFrame(code=CEMIMessageCode.L_DATA_CON, data=cemi.data)
         if mode == "ok":
             self.xknx.cemi_handler.handle_cemi_frame(con)
+        elif mode == "soon":  # one loop turn later
+            self.loop.call_soon(self.xknx.cemi_handler.handle_cemi_frame, con)
         elif mode != "none":
             self.loop.call_later(float(mode), self.xknx.cemi_handler.handle_cemi_frame, con)
 
@@ -510,16 +512,25 @@ class SimDevice:
 class SimBus:
     """Devices on a line, attached to a `CemiLink`.  `latency` in seconds; 0 = same loop instant."""
 
-    def __init__(self, link: CemiLink, devices: list[SimDevice], latency: float = 0.02, stagger: float = 0.003) -> None:
+    def __init__(self, link: CemiLink, devices: list[SimDevice], latency: float = 0.02, stagger: float = 0.003,
+                 early: Callable[[SimDevice], bool] | None = None, con: Any = "ok") -> None:
         self.link = link
         self.devices = devices
         self.latency = latency
         self.stagger = stagger
+        #: devices whose answers reach xknx *before* the L_Data.con of the request (same chunk of a TCP tunnel):
+        #: they are injected synchronously from the link's transmit hook, which runs before the confirmation
+        self.early = early
+        if con != "ok":
+            link.con_mode = lambda rec: con  # "soon" (one loop turn) or a delay in seconds
         self.broadcasts: list[dict[str, Any]] = []  # ground-truth log of what the client put on the bus
         self.p2p: list[dict[str, Any]] = []
         link.on_tx = self._on_tx
 
     def _reply(self, dev: SimDevice, telegram: Telegram, extra: float = 0.0) -> None:
+        if self.early is not None and self.early(dev) and extra < 1.0:
+            self.link.inject(telegram, {"device": dev.index, "early": True})
+            return
         delay = self.latency + (dev.index * self.stagger if self.latency > 0 else 0.0) + extra
         self.link.inject_later(delay, telegram, {"device": dev.index})
 
